@@ -33,8 +33,8 @@ func (c *countingClient) Ping(ctx context.Context) error {
 // much less than the timeout (so the peer is healthy by a wide margin, whatever the machine load)
 const (
 	kaSlowInterval = 5 * time.Millisecond
-	kaSlowTimeout  = 600 * time.Millisecond
-	kaSlowAnswer   = 350 * time.Millisecond
+	kaSlowTimeout  = 2000 * time.Millisecond
+	kaSlowAnswer   = 1200 * time.Millisecond
 )
 
 // trigCtx: a context that ends with DeadlineExceeded when told to (a parent context whose own deadline passes)
